@@ -36,6 +36,12 @@ def make_comparator(spec):
     from artap.operators import ParetoDominance, EpsilonDominance
     if spec == "pareto":
         return ParetoDominance()
+    if spec[0] == "pareto_eps":         # the Pareto comparator built with its (documented, ignored) epsilons argument
+        return ParetoDominance(epsilons=spec[1])
+    if spec[0] == "selector":           # the comparators a selector builds for itself from its constructor arguments
+        from artap.operators import TournamentSelector
+        sel = TournamentSelector([{"name": "x", "bounds": [0.0, 1.0]}], epsilons=spec[1])
+        return sel.dominance if spec[2] == "dominance" else sel.comparator
     return EpsilonDominance(spec[1])
 
 
@@ -47,7 +53,7 @@ def check_pair(spec, p, q):
     """All pair-level clauses for one ordered pair; returns [(key, message)]."""
     out = []
     cmp_ = make_comparator(spec).compare
-    name = "pareto" if spec == "pareto" else "epsilon"
+    name = "pareto" if (spec == "pareto" or spec[0] in ("pareto_eps", "selector")) else "epsilon"
     got = cmp_(list(p), list(q))
     rev = cmp_(list(q), list(p))
     exp = ref_dominance(p, q)
@@ -241,6 +247,48 @@ def _shard(shard, col: Collector):
                                       "a cost list was changed in place from %r to %r between two calls; compare(list, %r) = %r, definition %r" % (first, second, q, got, want),
                                       {"p": second, "q": q})
         col.sample({"kind": "argument immutability / independent comparator objects / numeric types and edge values / in-place changes"}, 1)
+    elif kind == "varlen":
+        # ONE comparator object sees cost vectors of changing length (one comparator is shared by every default Archive();
+        # a user-held comparator serves a bi- and then a tri-objective problem): every verdict as if the object were fresh
+        from artap.operators import ParetoDominance, EpsilonDominance
+        _, eps = shard
+        alph = {m: ([tuple(v) + (True,) for v in itertools.product(V3, repeat=m)] if m <= 3 else
+                    [tuple(v) + (True,) for v in itertools.product((0.0, 1.0), repeat=m)]) for m in (1, 2, 3, 4, 5)}
+        orders = list(itertools.permutations((1, 2, 3, 4))) + [(5, 1, 3), (2, 5, 4), (1, 5), (3, 5, 2, 5)]
+        for order in orders:
+            cmpo = ParetoDominance() if eps == "pareto" else EpsilonDominance(eps)
+            for m in order:
+                for p in alph[m]:
+                    for q in alph[m]:
+                        col.case()
+                        got = cmpo.compare(list(p), list(q))
+                        exp = ref_dominance(p, q)
+                        if p == q:
+                            ok = (got == 0) if eps == "pareto" else got in (1, 2)
+                        else:
+                            ok = got == exp
+                        if not ok:
+                            col.violation("C01:%s:verdict-depends-on-lengths-seen-before" % ("pareto" if eps == "pareto" else "epsilon"), "varlen",
+                                          "one comparator object (epsilons %r) used for lengths %r in this order: compare(%r, %r) = %r, definition %r" % (
+                                              eps, order, p, q, got, exp), {"eps": eps, "order": order, "p": p, "q": q})
+                col.nontrivial(("varlen", repr(eps), order, m))
+        col.sample({"kind": "one comparator, changing vector lengths", "epsilons": eps, "orders": len(orders)}, 1)
+    elif kind == "options":
+        # comparators reached through constructor options: ParetoDominance(epsilons=...), the two comparators a
+        # TournamentSelector builds -- all of them are the plain Pareto comparator
+        specs = [("pareto_eps", e) for e in ([0.5], 0.3, [0.1, 2.0], [1e3])] + \
+                [("selector", e, w) for e in (None, [0.5], [0.1, 2.0]) for w in ("dominance", "comparator")]
+        for spec in specs:
+            for m in (1, 2, 3):
+                vs = vectors(A5 if m < 3 else V3, m)
+                for p in vs:
+                    for q in vs:
+                        col.case()
+                        if p != q:
+                            col.nontrivial(("options", repr(spec), p, q))
+                        for key, msg in check_pair(spec, p, q):
+                            col.violation(key + ":constructed-with-options", "pair", "%r: %s" % (spec, msg), {"spec": spec, "p": p, "q": q})
+        col.sample({"kind": "comparators built with constructor options", "specs": [repr(x) for x in specs[:3]]}, 1)
     elif kind == "laws":
         # Numeric markers (the comparator's documented reading: 0 = feasible, otherwise a degree of violation), both signs.
         # No reference verdict is demanded here - only the laws the statement names for ALL marker combinations:
@@ -325,10 +373,25 @@ def replay(sub, case):
     spec = case.get("spec")
     if isinstance(spec, list):
         spec = tuple(spec) if spec[0] != "eps" else ("eps", spec[1])
+        if spec[0] == "selector" and isinstance(spec[1], tuple):
+            spec = ("selector", list(spec[1]), spec[2])
     if sub == "pair":
         return check_pair(spec, t(case["p"]), t(case["q"]))
     if sub == "triple":
         return check_triple(spec, t(case["a"]), t(case["b"]), t(case["c"]))
+    if sub == "varlen":
+        from artap.operators import ParetoDominance, EpsilonDominance
+        eps = case["eps"]
+        cmpo = ParetoDominance() if eps == "pareto" else EpsilonDominance(eps)
+        p, q = t(case["p"]), t(case["q"])
+        for m in case["order"]:            # bring the object into the same state: one call per earlier length
+            cmpo.compare([0.0] * m + [True], [1.0] * m + [True])
+            if m == len(p) - 1:
+                break
+        got = cmpo.compare(list(p), list(q))
+        exp = ref_dominance(p, q)
+        ok = (got == 0 if eps == "pareto" else got in (1, 2)) if p == q else got == exp
+        return [] if ok else [("C01:varlen", "compare(%r, %r) = %r, definition %r" % (p, q, got, exp))]
     if sub == "misc":
         from artap.operators import ParetoDominance
         p, q = t(case["p"]), t(case["q"])
@@ -371,7 +434,8 @@ def run(tier, seed):
         if tier == "thorough":
             shards += [("pairs", spec, A5, 3), ("pairs", spec, B2, 5), ("pairs", spec, B2, 6)]
     shards += [("pairs", "pareto", NEAR, 1), ("pairs", "pareto", NEAR, 2)]
-    shards += [("misc",)]
+    shards += [("misc",), ("options",)]
+    shards += [("varlen", e) for e in ("pareto", [0.1], 0.25, [0.1, 0.1], [0.01, 5.0], [0.3, 0.7, 0.9])]
     shards += [("laws", "pareto", 1), ("laws", "pareto", 2), ("laws", "pareto", 3), ("laws", ("eps", [0.1, 0.1]), 2), ("laws", ("eps", 0.25), 3)]
     if tier == "thorough":
         shards += [("pairs", "pareto", NEAR, 3)]
